@@ -104,11 +104,11 @@ def make_array(name):
     if name == "single":
         a = np.zeros((ROWS, COLS))
         a[s % ROWS, (s + 1) % COLS] = 2 * b + 1
-        return a
+        return np.asfortranarray(a)          # same values, column-major memory layout
     if name == "hole":
         a = np.full((ROWS, COLS), b + 2)
         a[(s + 1) % ROWS, s % COLS] = 0.0
-        return a
+        return np.ascontiguousarray(a.T).T   # same values, a transposed view (not C-contiguous)
     raise KeyError(name)
 
 
